@@ -174,3 +174,18 @@ package golang
 //@   ensures result == nil ==> ncalls("cu.namingStyle.UseInitialisms") == 1 && callarg("cu.namingStyle.UseInitialisms", 0) == cu.doInitialisms
 //@   ensures cu.doInitialisms == old(cu.doInitialisms)
 //@   modifies cu.namingStyle
+//@ func codeUtilsParams$package_prefix$action(value string, cu *CodeUtils) error
+//@   requires cu != nil
+//@   ensures result == nil && cu.packagePrefix == value
+//@   modifies cu.packagePrefix
+//@ func codeUtilsParams$template$action(value string, cu *CodeUtils) error
+//@   requires cu != nil
+//@   ensures (result == nil) == (value == "default" || cu.alternative[value] != nil)
+//@   ensures result == nil ==> cu.useTemplate == value
+//@   ensures result != nil ==> cu.useTemplate == old(cu.useTemplate)
+//@   modifies cu.useTemplate
+//@ func codeUtilsParams$thrift_import_path$action(value string, cu *CodeUtils) error
+//@   requires cu != nil && cu.importReplace != nil
+//@   ensures result == nil && cu.importReplace[DefaultThriftLib] == value
+//@   ensures forall k string :: k != DefaultThriftLib ==> cu.importReplace[k] == old(cu.importReplace[k]) && inDom(cu.importReplace, k) == old(inDom(cu.importReplace, k))
+//@   modifies contents(cu.importReplace)
